@@ -1,3 +1,40 @@
+(* C17  A GMM's likelihood reflects its current visible parameters, whatever its history. *)
 From Coq Require Import Reals List.
-Theorem placeholder : True. Proof. exact I. Qed.
-Print Assumptions placeholder.
+From BLE Require Import Num.InstR Model.GMM Model.Machine Proofs.RLemmas Proofs.MachineR.
+Import ListNotations OR OR.G.
+Open Scope R_scope.
+
+(* every reachable state: any finite sequence of setter calls (scalar / per-feature / matrix floors, raised or lowered),
+   EM steps with any switches, deep copies, pickles and save/load round trips, from any freshly built machine *)
+Theorem C17_invariant_holds_in_every_reachable_state (w : list R) (mu v : list (list R)) (t : thr_t) (ops : list op) :
+  Inv (run (fresh w mu v t) ops).
+Proof. exact (inv_reachable w mu v t ops). Qed.
+Print Assumptions C17_invariant_holds_in_every_reachable_state.
+
+Theorem C17_invariant_preserved_by_every_operation (m : mach) (o : op) : Inv m -> Inv (step m o).
+Proof. exact (inv_step m o). Qed.
+Print Assumptions C17_invariant_preserved_by_every_operation.
+
+(* no stale normaliser or log-weight: what the object computes from its caches is what its visible parameters define *)
+Theorem C17_likelihood_is_that_of_the_visible_parameters (m : mach) (x : list R) : Inv m ->
+  lwls_cached m x = lwls (visible m) x /\ ll_cached m x = ll (visible m) x.
+Proof. exact (observe_eq_visible m x). Qed.
+Print Assumptions C17_likelihood_is_that_of_the_visible_parameters.
+
+Theorem C17_same_visible_parameters_same_likelihood (m1 m2 : mach) (x : list R) :
+  Inv m1 -> Inv m2 -> visible m1 = visible m2 -> ll_cached m1 x = ll_cached m2 x.
+Proof. exact (same_visible_same_likelihood m1 m2 x). Qed.
+Print Assumptions C17_same_visible_parameters_same_likelihood.
+
+Theorem C17_statistics_are_those_of_the_visible_parameters (nf : nat) (m : mach) (X : list (list R)) : Inv m ->
+  length (o_w m) = length (o_mu m) -> length (o_w m) = length (o_var m) ->
+  e_step_cached nf m X = e_step nf (visible m) X.
+Proof. exact (stats_eq_visible nf m X). Qed.
+Print Assumptions C17_statistics_are_those_of_the_visible_parameters.
+
+(* no stale floor: variances are never below the current floors *)
+Theorem C17_variances_never_below_current_floors (C D : nat) (m : mach) :
+  rect C D (o_var m) -> rect C D (bcast C D (o_thr m)) -> (0 < C)%nat -> floors_hold m ->
+  forall c d, (c < C)%nat -> (d < D)%nat -> nth d (nth c (bcast C D (o_thr m)) []) 0 <= nth d (nth c (o_var m) []) 0.
+Proof. exact (floors_hold_elementwise C D m). Qed.
+Print Assumptions C17_variances_never_below_current_floors.
